@@ -293,12 +293,20 @@ func reflectContract(m protoreflect.Message) string {
 		v := m.Get(fd)
 		switch {
 		case fd.IsList():
-			if v.List().Len() != 0 || v.List().IsValid() && false {
+			if v.List().Len() != 0 {
 				fmt.Fprintf(&sb, "%s: unpopulated list not empty; ", fd.FullName())
+			}
+			if v.List().IsValid() {
+				// Get on an unpopulated list returns an empty, read-only (invalid) list; a valid one could be
+				// appended to behind the message's back
+				fmt.Fprintf(&sb, "%s: unpopulated list reads as a valid (mutable) list; ", fd.FullName())
 			}
 		case fd.IsMap():
 			if v.Map().Len() != 0 {
 				fmt.Fprintf(&sb, "%s: unpopulated map not empty; ", fd.FullName())
+			}
+			if v.Map().IsValid() {
+				fmt.Fprintf(&sb, "%s: unpopulated map reads as a valid (mutable) map; ", fd.FullName())
 			}
 		case fd.Message() != nil:
 			if v.Message().IsValid() {
